@@ -117,9 +117,16 @@ def run(fn, show, watchdog=None):
 
 
 # ---------- wire ----------
+def weekday_ok(w):
+    """the `weekday` attribute of a relativedelta must be None or a weekday object"""
+    return w is None or (hasattr(w, "weekday") and hasattr(w, "n") and isinstance(w.weekday, int))
+
+
 def wd_tokens(w):
     if w is None:
         return "- -"
+    if not weekday_ok(w):
+        return "BAD(%r) -" % (w,)      # not a weekday object: never equal to a model response (and never a crash)
     return "%d %s" % (w.weekday, oint(w.n))
 
 
@@ -279,7 +286,9 @@ def g_weekday(rng, int_ok=True, wild=False):
     from dateutil._common import weekday
     from dateutil import relativedelta as R
     r = rng.random()
-    if int_ok and r < 0.2:
+    if int_ok and r < 0.25:
+        if rng.random() < 0.35:
+            return 0                                     # calendar.MONDAY: the falsy integer weekday
         return rng.randint(-9, 8) if wild else rng.randint(0, 6)
     w = rng.randint(0, 6)
     r = rng.random()
